@@ -342,7 +342,7 @@ func loadLocation(tz string) *time.Location {
 
 func (tv *Timestamp) Equals(o interface{}, g px.Guard) bool {
 	if ov, ok := o.(*Timestamp); ok {
-		return tv.Int() == ov.Int()
+		return (*time.Time)(tv).Equal(*(*time.Time)(ov))
 	}
 	return false
 }
